@@ -181,9 +181,9 @@ fn wait_exits(target: usize) {
     let t0 = Instant::now();
     while WORKER_EXITS.load(Ordering::SeqCst) < target {
         std::thread::sleep(Duration::from_micros(200));
-        if t0.elapsed() > Duration::from_secs(60) {
+        if t0.elapsed() > Duration::from_secs(25) {
             // data, not a tool error: the workers did not exit
-            ev(Obj::new("Crash").str("msg", "hang: GC workers did not exit after prepare_to_fork/shutdown").str("loc", "scheddrive").int("hang", 1));
+            ev(Obj::new("Crash").str("msg", "hang: GC workers did not exit after prepare_to_fork/shutdown").str("loc", "scheddrive").int("exitHang", 1));
             TRACE.flush();
             std::process::exit(3);
         }
